@@ -332,6 +332,10 @@ func atoi(s string) int {
 
 func streamPanic(c *Ctx) {
 	if replayOp != "" {
+		if strings.HasPrefix(replayOp, "rchain ") {
+			chainOp(c, replayOp)
+			return
+		}
 		panicOp(c, replayOp)
 		return
 	}
@@ -373,6 +377,7 @@ func streamPanic(c *Ctx) {
 		}
 	}
 	c.exhaust = true
+	streamChains(c)
 	panicAfterDeadlineProbe(c)
 	sharedOptionRecoverProbe(c)
 	invalidUTF8PanicProbe(c)
@@ -798,5 +803,182 @@ func panicAfterDeadlineProbe(c *Ctx) {
 				c.Fail("recover-value", desc, fmt.Sprintf("%#v", calls[0]), "the recovery function did not get the recovered value")
 			}
 		}
+	}
+}
+
+// ---- chains in which interceptors panic too (model runChain) ----
+
+// panicIcpt panics with v before calling next, or once next has returned.
+type panicIcpt struct {
+	when string // "b" or "a"
+	v    any
+}
+
+func (p *panicIcpt) WrapUnary(next connect.UnaryFunc) connect.UnaryFunc {
+	return func(ctx context.Context, req connect.AnyRequest) (connect.AnyResponse, error) {
+		if p.when == "b" {
+			panic(p.v) //nolint
+		}
+		res, err := next(ctx, req)
+		_, _ = res, err
+		panic(p.v) //nolint
+	}
+}
+func (p *panicIcpt) WrapStreamingClient(next connect.StreamingClientFunc) connect.StreamingClientFunc {
+	return next
+}
+func (p *panicIcpt) WrapStreamingHandler(next connect.StreamingHandlerFunc) connect.StreamingHandlerFunc {
+	return func(ctx context.Context, conn connect.StreamingHandlerConn) error {
+		if p.when == "b" {
+			panic(p.v) //nolint
+		}
+		_ = next(ctx, conn)
+		panic(p.v) //nolint
+	}
+}
+
+// chainOp: "rchain kind=<unary|server> proto=<p> body=<none|fail|nil|abort|other> <layer>..." with
+// layers outermost first: p (passes), b:<val> / a:<val> (panics before / after next), r (a
+// WithRecover frame; frames are numbered 1.. outermost first).
+func chainOp(c *Ctx, op string) {
+	c.Begin(op)
+	f := strings.Fields(op)
+	a := kvArgs(f)
+	var calls []string
+	var hopts []connect.HandlerOption
+	frames, layers := 0, 0
+	val := func(s string) any {
+		switch s {
+		case "nil":
+			return nil
+		case "abort":
+			return http.ErrAbortHandler
+		}
+		return errors.New("boom-" + s)
+	}
+	for _, tok := range f[1:] {
+		switch {
+		case tok == "p":
+			hopts = append(hopts, connect.WithInterceptors(&logIcpt{id: 40 + layers, log: &eventLog{}}))
+		case tok == "r":
+			frames++
+			id := frames
+			hopts = append(hopts, connect.WithRecover(func(_ context.Context, _ connect.Spec, _ http.Header, v any) error {
+				calls = append(calls, fmt.Sprintf("%d:%s", id, classify(v)))
+				return connect.NewError(connect.CodeDataLoss, fmt.Errorf("recovered-%d", id))
+			}))
+		case strings.HasPrefix(tok, "b:") || strings.HasPrefix(tok, "a:"):
+			hopts = append(hopts, connect.WithInterceptors(&panicIcpt{when: tok[:1], v: val(tok[2:])}))
+		default:
+			continue
+		}
+		layers++
+	}
+	declined := connect.NewError(connect.CodeResourceExhausted, errors.New("declined"))
+	body := func() error {
+		switch a["body"] {
+		case "none":
+			return nil
+		case "fail":
+			return declined
+		}
+		panic(val(a["body"])) //nolint
+	}
+	var h http.Handler
+	if a["kind"] == "unary" {
+		h = connect.NewUnaryHandler("/s/m", func(ctx context.Context, req *connect.Request[wrapperspb.Int64Value]) (*connect.Response[wrapperspb.Int64Value], error) {
+			if err := body(); err != nil {
+				return nil, err
+			}
+			return connect.NewResponse(&wrapperspb.Int64Value{Value: 1}), nil
+		}, hopts...)
+	} else {
+		h = connect.NewServerStreamHandler("/s/m", func(ctx context.Context, req *connect.Request[wrapperspb.Int64Value], s *connect.ServerStream[wrapperspb.Int64Value]) error {
+			_ = s.Send(&wrapperspb.Int64Value{Value: 1})
+			return body()
+		}, hopts...)
+	}
+	var copts []connect.ClientOption
+	switch a["proto"] {
+	case "grpc":
+		copts = append(copts, connect.WithGRPC())
+	case "grpcweb":
+		copts = append(copts, connect.WithGRPCWeb())
+	}
+	ic := &inprocClient{h: h}
+	cl := connect.NewClient[wrapperspb.Int64Value, wrapperspb.Int64Value](ic, "http://h/s/m", copts...)
+	var callErr error
+	ans := safely(func() string {
+		ctx := context.Background()
+		if a["kind"] == "unary" {
+			_, callErr = cl.CallUnary(ctx, connect.NewRequest(&wrapperspb.Int64Value{Value: 5}))
+		} else {
+			s, err := cl.CallServerStream(ctx, connect.NewRequest(&wrapperspb.Int64Value{Value: 5}))
+			if err != nil {
+				callErr = err
+			} else {
+				for s.Receive() {
+				}
+				callErr = s.Err()
+				_ = s.Close()
+			}
+		}
+		outcome := "returned"
+		switch {
+		case ic.panicked:
+			outcome = "panic-" + classify(ic.panicValue)
+		case callErr != nil && connect.CodeOf(callErr) == connect.CodeDataLoss && strings.Contains(callErr.Error(), "recovered-"):
+			msg := callErr.Error()
+			outcome = "recovered:" + msg[strings.Index(msg, "recovered-")+len("recovered-"):]
+		case callErr != nil:
+			outcome = "error:" + connect.CodeOf(callErr).String()
+		}
+		return fmt.Sprintf("calls=[%s] outcome=%s", strings.Join(calls, " "), outcome)
+	})
+	// oracle (independent of the model): nothing but the sentinel escapes a chain whose outermost
+	// panicking layer sits below a recover frame; a frame's recovery function runs at most once
+	seen := map[string]int{}
+	for _, cl := range calls {
+		id := cl[:strings.Index(cl, ":")]
+		if seen[id]++; seen[id] > 1 {
+			c.Fail("recover-chain-twice", op, ans, "one WithRecover frame called its recovery function twice for one call")
+		}
+		if strings.HasSuffix(cl, ":abort") {
+			c.Fail("recover-chain-abort", op, ans, "http.ErrAbortHandler was handed to a recovery function")
+		}
+	}
+	if len(f) > 4 && f[4] == "r" && ic.panicked && ic.panicValue != http.ErrAbortHandler { //nolint
+		c.Fail("recover-chain-escaped", op, ans, "a panic other than http.ErrAbortHandler escaped a chain whose outermost interceptor is WithRecover")
+	}
+	c.Count("chain/" + a["kind"] + "/" + a["proto"] + "/" + a["body"])
+	c.Emit(op, ans, true)
+}
+
+func streamChains(c *Ctx) {
+	r := c.Rng
+	vals := []string{"nil", "abort", "other"}
+	n := 400
+	if c.Thorough() {
+		n = 4000
+	}
+	for i := 0; i < n; i++ {
+		var ls []string
+		depth := 1 + r.Intn(5)
+		for j := 0; j < depth; j++ {
+			switch k := r.Intn(8); {
+			case k < 3:
+				ls = append(ls, "r")
+			case k < 5:
+				ls = append(ls, "p")
+			case k < 6:
+				ls = append(ls, "b:"+vals[r.Intn(3)])
+			default:
+				ls = append(ls, "a:"+vals[r.Intn(3)])
+			}
+		}
+		kind := []string{"unary", "server"}[r.Intn(2)]
+		proto := []string{"connect", "grpc", "grpcweb"}[r.Intn(3)]
+		body := []string{"none", "fail", "nil", "abort", "other"}[r.Intn(5)]
+		chainOp(c, fmt.Sprintf("rchain kind=%s proto=%s body=%s %s", kind, proto, body, strings.Join(ls, " ")))
 	}
 }
